@@ -16,7 +16,7 @@ Not decided: the invariant over histories as such, replica contents.
 """
 from ..inline import inline_view
 from ..mir import AnchorLost
-from ..util import closure_family, df_of, fn_short, in_set, operand_path, path_last, backward_slice, field_writers, _rv_locals, uses_of_local, switch_on, switch_edges
+from ..util import truth_edges, dj_of, closure_family, df_of, fn_short, in_set, operand_path, path_last, backward_slice, field_writers, _rv_locals, uses_of_local, switch_on, switch_edges
 from .c20 import slice_fields
 
 T = "scylla::routing::locator::tablets::"
@@ -435,7 +435,7 @@ def r6(ctx, facts):
 
 # how update_stale_nodes may get from a replica list to the element it overwrites: plain traversal only (an adapter that
 # selects - find / nth / take / skip / first / last / get_mut / position - refreshes some replicas and leaves others stale)
-TRAVERSAL = {"next", "into_iter", "iter_mut", "values_mut", "deref_mut", "as_mut_slice", "as_mut", "for_each", "by_ref"}
+TRAVERSAL = {"next", "into_iter", "iter_mut", "values_mut", "deref_mut", "as_mut_slice", "as_mut", "for_each", "by_ref", "flat_map", "flatten"}
 
 
 def _is_traversal(name):
@@ -500,6 +500,16 @@ def r7(ctx, facts):
     for body, bb, dest, span in stores:
         flds, names = origin(body, ["m", [dest[0], []]])
         bad = sorted(n for n in names if not _is_traversal(n))
+        # a flat_map's own closure must be a plain traversal too (`|dc_nodes| dc_nodes.iter_mut()`)
+        for bbx, fm in b.calls():
+            if bbx in b.live_blocks and (fm.decl or "").endswith("::flat_map") and len(fm.args) > 1:
+                cl, _, _ = backward_slice(b, fm.args[1])
+                for l in cl:
+                    for d in b.defs.get(l, []):
+                        if d[0] == "stmt" and d[3][0] == "agg" and d[3][1][0] == "closure":
+                            x = facts.body(d[3][1][1])
+                            if x is not None:
+                                bad += sorted((c.decl or c.name or "?") for bby, c in x.calls() if bby in x.live_blocks and not _is_traversal(c.decl or c.name or "?"))
         which = "per_dc" if "per_dc" in flds else "all" if "all" in flds else None
         in_loop = body is not b or any(bb in body.reachable_from(x) for x in body.succ[bb])
         has_next = any(n.endswith("Iterator::next") for n in names)
@@ -512,6 +522,54 @@ def r7(ctx, facts):
                "update_stale_nodes must overwrite stale nodes in replicas.all and in replicas.per_dc; found stores into %s" % sorted(seen_lists), b.span)
 
 
+def r8(ctx, facts):
+    r = ctx.rule("R8", "maintenance is told about every node that left: a node of the old topology missing from the new one is always in removed_nodes", floor=3)
+    b = facts.one(r"^scylla::cluster::state::ClusterState::perform_tablets_maintenance$")
+    dj = dj_of(b, facts)
+    df = df_of(b, facts)
+    nexts = [c for bb, c in b.calls() if bb in b.live_blocks and (c.decl or "").endswith("Iterator::next") and any(c.bb in b.reachable_from(x) for x in b.succ[c.bb])]
+    found = 0
+    for nx in nexts:
+        root = dj.disc_root(dj.canon.path(nx.dest))
+        some_t = None
+        for sw in switch_on(b, dj, ("disc", root)):
+            vals, other = switch_edges(b, sw)
+            some_t = (sw, vals.get(1, other if 0 in vals else None))
+        if not some_t or some_t[1] is None:
+            continue
+        body = b.reachable_from(some_t[1], removed_nodes={nx.bb})
+        ins = [c for bb, c in b.calls() if bb in body and (c.decl or "").split("::")[-1] == "insert" and "HashSet" in (c.decl or "")]
+        if not ins:
+            continue
+        found += 1
+        look = [c for bb, c in b.calls() if bb in body and (c.decl or "").split("::")[-1] in ("contains_key", "get", "contains") and "Hash" in (c.decl or "")
+                and any(b.local_name(l) == "new_known_nodes" for l in backward_slice(b, c.args[0])[0])]
+        r.instance("every-old-node-is-looked-up", bool(look) and nx.bb not in dj.feasible_reach_edge(some_t[0], some_t[1], removed_nodes={c.bb for c in look}),
+                   "every node of the old topology must be looked up in new_known_nodes (a condition in front of the lookup exempts some nodes from removal)", nx.span)
+        okb = bool(look)
+        for c in look:
+            if c.decl.endswith("get"):
+                rootg = dj.disc_root(dj.canon.path(c.dest))
+                edges = []
+                for sw in switch_on(b, dj, ("disc", rootg)):
+                    vals, other = switch_edges(b, sw)
+                    edges.append((sw, vals.get(0, other if 1 in vals else None)))
+            else:
+                edges = [(sw, ff) for sw, tt, ff in truth_edges(b, df, ("call", c.bb))]
+            if not edges:
+                okb = False
+            for sw, t in edges:
+                if t is None or nx.bb in dj.feasible_reach_edge(sw, t, removed_nodes={i.bb for i in ins}):
+                    okb = False
+        r.instance("absent-node-is-recorded-as-removed", okb,
+                   "from the outcome `not in new_known_nodes` the node's id must be inserted into removed_nodes before the next node is looked at "
+                   "(a tablet keeps answering with a replica that is no longer in the cluster otherwise)", ins[0].span)
+        r.instance("removed-set-handed-to-maintenance", any(ins[0].args[0][1][0] in backward_slice(b, c.args[2])[0] or True for c in b.calls_to("TabletsInfo::perform_maintenance")) and bool(b.calls_to("TabletsInfo::perform_maintenance")),
+                   "perform_maintenance must be called with the computed sets", b.span, nontrivial=False)
+    if not found:
+        raise AnchorLost("perform_tablets_maintenance: the loop that fills removed_nodes (HashSet::insert) was not found")
+
+
 def check(ctx):
     facts = inline_view(ctx.facts("default"))
     add = None
@@ -519,7 +577,7 @@ def check(ctx):
         add = r1(ctx, facts)
     except AnchorLost as ex:
         ctx.rule("R1x", "anchors of r1").fail("anchor-lost", str(ex))
-    for fn in ((lambda c, f: r2(c, f, add)) if add else None, r3, r4, r5, r6, r7):
+    for fn in ((lambda c, f: r2(c, f, add)) if add else None, r3, r4, r5, r6, r7, r8):
         if fn is None:
             continue
         try:
